@@ -851,9 +851,42 @@ def contiguous(sub, lst):
     return any(lst[i:i + n] == sub for i in range(len(lst) - n + 1)) if n else True
 
 
+def monitor_lookup_quota(run):
+    """C01_lookup_quota / C01_lookup_failure_counts on the implementation's own trace (driver 1): a metadata load issued
+    by a batch whose attempt quota is used up.  `count` is a LOWER bound of the producer's attempt counter: lookup
+    failures (a retry timer armed after a load) and produce requests seen since the batch certainly began; it is reset
+    whenever the load could belong to a new batch (the producer was idle, or at most one lookup item was pending, so
+    the batch in flight may have ended in this very step)."""
+    bad = []
+    raw = getattr(run, "raw", None)
+    snaps = getattr(run, "snaps", None)
+    if not raw or not snaps or len(raw) != len(run.events) or len(snaps) != len(run.events):
+        return bad
+    mx = run.cfg["max"]
+    count = 0
+    prev = run.snap0
+    for i, (outs, snap) in enumerate(zip(raw, snaps)):
+        items = len(prev["loads"]) + sum(1 for tid in prev["timers"] if run.timer_kind.get(tid) == 0)
+        if not prev["busy"]:
+            count = 0
+        for o in outs:
+            if o[0] == 5:
+                if items >= 2 and count >= mx:
+                    bad.append({"theorem": "C01_lookup_quota", "step": i,
+                                "what": "a partition lookup asks for metadata again although the batch has already used %d attempts "
+                                        "(max_req_attempts=%d): the batch can go on for ever and its sends never fire" % (count, mx)})
+                    return bad
+                if items <= 1:
+                    count = 0
+            elif (o[0] == 2 and o[3] == 0) or o[0] == 1:
+                count += 1
+        prev = snap
+    return bad
+
+
 def monitor(run):
     """returns a list of {"theorem":..., "what":..., "step":...}; empty = every C01 statement holds on this trace"""
-    bad = []
+    bad = monitor_lookup_quota(run)
     cfg = run.cfg
     acks = cfg["acks"]
     events, trace = run.events, run.trace
